@@ -8,14 +8,15 @@ variables, `!`, unary `-`, `+`, `-`, `*`, `/`, `%`, `<<`, `>>`, `<`, `>`, `<=`, 
 `||`, `as` between all these types, `if`/`else` as expression and as statement, `match` on a Boolean or
 integer with literal, range and binding patterns whose arms cover the type (a last arm that binds or
 ignores the value, or any set of arms the verified reference procedure of C08 finds exhaustive), blocks,
-`let`, `let mut`, assignment to a variable — computing, for given inputs, the value every output wire
+`let`, `let mut`, assignment to a variable, calls of functions with scalar parameters (inlined to any depth;
+`callAt`, programs without constants) — computing, for given inputs, the value every output wire
 carries, the abstract state of the panic record and the wires of every variable in scope (the
 branches of an `if`, every arm of a `match` and the right operand of `&&` / `||` are compiled
 unconditionally and every variable is merged afterwards, `mux_envs`; an arm is selected by
 `!has_prev_match && is_match`, a range pattern by two comparator circuits). The operators are the bit-list functions of
 Model/Arith.lean (tied to `CircuitBuilder` by C03/C04, proved exact in Proofs/Arith*.lean).
 
-`C01_core`: for every program body of the fragment, every environment of well-typed values and
+`C01_core`: for every program, every inlining depth, every function body of the fragment, every environment of well-typed values and
 every fuel, if the source semantics return a value then the bit-level evaluation returns exactly
 the encoding of that value and no panic, and the wires of the variables encode the environment
 the source semantics end with; if they fail, it reports exactly that failure (the first failing
@@ -24,7 +25,7 @@ iff the source execution fails. `C01_core_defined`: the source semantics are nev
 program of the fragment (type soundness).
 
 **Explored (whole language).** Everything outside the fragment (multiplication by a negative literal, aggregates, `match` on
-aggregates and enums, loops, functions, assignment through accessors) is compared on generated programs on every run: circuit output against `Src.evalStmts`,
+aggregates and enums, loops, functions on aggregates, constants, assignment through accessors) is compared on generated programs on every run: circuit output against `Src.evalStmts`,
 and — for programs of the fragment — against `Bit.bitStmts` as well, which ties the model of
 this theorem to the code.
 -/
@@ -38,13 +39,13 @@ theorem VRel.hasType_encode {t : STy} {v : Val} {bs : List Bool} (h : VRel (.s t
   Rel.hasType_encode h
 
 /-- **C01 / C02 for the core fragment** (statement lists: function bodies) -/
-theorem C01_core (prog : Prog) (fuel : Nat) (env : Src.Env) (benv benv' : BEnv) (body : StmtList)
+theorem C01_core (prog : Prog) (depth fuel : Nat) (env : Src.Env) (benv benv' : BEnv) (body : StmtList)
     (t : STy) (bits : List Bool) (p : P)
-    (henv : EnvRel env benv) (hbits : bitStmts benv body = some (.s t, bits, p, benv')) :
+    (henv : EnvRel env benv) (hbits : bitStmts (callAt prog depth) benv body = some (.s t, bits, p, benv')) :
     (∀ v env', evalStmts fuel prog env body = .ok (v, env') →
         v.hasType t.toTy = true ∧ bits = v.encode t.toTy ∧ p = none ∧ EnvRel env' benv') ∧
     (∀ k, evalStmts fuel prog env body = .error (.panic k) → p = some k) := by
-  have h := (core_all prog fuel).2.1 body env benv _ bits p benv' henv hbits
+  have h := (core_all prog (callAt prog depth) (callAt_sound prog depth) fuel).2.1 body env benv _ bits p benv' henv hbits
   constructor
   · intro v env' hv
     rw [hv] at h
@@ -55,13 +56,13 @@ theorem C01_core (prog : Prog) (fuel : Nat) (env : Src.Env) (benv benv' : BEnv) 
     exact h
 
 /-- the same for expressions; assignments inside the expression are reflected in the variables -/
-theorem C01_core_expr (prog : Prog) (fuel : Nat) (env : Src.Env) (benv benv' : BEnv) (e : Expr)
+theorem C01_core_expr (prog : Prog) (depth fuel : Nat) (env : Src.Env) (benv benv' : BEnv) (e : Expr)
     (t : STy) (bits : List Bool) (p : P)
-    (henv : EnvRel env benv) (hbits : bitExpr benv e = some (.s t, bits, p, benv')) :
+    (henv : EnvRel env benv) (hbits : bitExpr (callAt prog depth) benv e = some (.s t, bits, p, benv')) :
     (∀ v env', evalExpr fuel prog env e = .ok (v, env') →
         v.hasType t.toTy = true ∧ bits = v.encode t.toTy ∧ p = none ∧ EnvRel env' benv') ∧
     (∀ k, evalExpr fuel prog env e = .error (.panic k) → p = some k) := by
-  have h := (core_all prog fuel).1 e env benv _ bits p benv' henv hbits
+  have h := (core_all prog (callAt prog depth) (callAt_sound prog depth) fuel).1 e env benv _ bits p benv' henv hbits
   constructor
   · intro v env' hv
     rw [hv] at h
@@ -73,12 +74,12 @@ theorem C01_core_expr (prog : Prog) (fuel : Nat) (env : Src.Env) (benv benv' : B
 
 /-- **the fragment is type-sound**: a program that `bitStmts` accepts never gets stuck in the source
 semantics — with enough fuel it returns a value of its type or fails with one of the three panics -/
-theorem C01_core_defined (prog : Prog) (fuel : Nat) (env : Src.Env) (benv benv' : BEnv) (body : StmtList)
+theorem C01_core_defined (prog : Prog) (depth fuel : Nat) (env : Src.Env) (benv benv' : BEnv) (body : StmtList)
     (t : VTy) (bits : List Bool) (p : P)
-    (henv : EnvRel env benv) (hbits : bitStmts benv body = some (t, bits, p, benv')) :
+    (henv : EnvRel env benv) (hbits : bitStmts (callAt prog depth) benv body = some (t, bits, p, benv')) :
     ∀ why, evalStmts fuel prog env body ≠ .error (.stuck why) := by
   intro why hw
-  have h := (core_all prog fuel).2.1 body env benv _ bits p benv' henv hbits
+  have h := (core_all prog (callAt prog depth) (callAt_sound prog depth) fuel).2.1 body env benv _ bits p benv' henv hbits
   rw [hw] at h
   exact h
 
@@ -86,10 +87,10 @@ theorem C01_core_defined (prog : Prog) (fuel : Nat) (env : Src.Env) (benv benv' 
 
 /-- `x + 1u8` with `x = 255`: the source semantics fail with Overflow, and so does the bit-level
 evaluation; with `x = 7` both give 8 -/
-example : bitExpr [("x", .int .u8, enc .u8 255)] (.bin .add (.int .u8) (.var "x") (.int 1 .u8)) =
+example : bitExpr (callAt ⟨[], []⟩ 0) [("x", .int .u8, enc .u8 255)] (.bin .add (.int .u8) (.var "x") (.int 1 .u8)) =
     some (.s (.int .u8), enc .u8 0, some .overflow, [("x", .int .u8, enc .u8 255)]) := by rfl
 
-example : bitExpr [("x", .int .u8, enc .u8 7)] (.bin .add (.int .u8) (.var "x") (.int 1 .u8)) =
+example : bitExpr (callAt ⟨[], []⟩ 0) [("x", .int .u8, enc .u8 7)] (.bin .add (.int .u8) (.var "x") (.int 1 .u8)) =
     some (.s (.int .u8), enc .u8 8, none, [("x", .int .u8, enc .u8 7)]) := by rfl
 
 /-- `if c { x = 1u8; } else { }` followed by `x`: the variable is merged by the condition -/
@@ -97,11 +98,25 @@ def C01_example_body : StmtList :=
   .cons (.expr (.ite (.var "c") (.block (.cons (.assign "x" .nil (.int 1 .u8)) .nil)) (.block .nil)))
     (.cons (.expr (.var "x")) .nil)
 
-example : bitStmts [("c", .bool, [true]), ("x", .int .u8, enc .u8 7)] C01_example_body =
+example : bitStmts (callAt ⟨[], []⟩ 0) [("c", .bool, [true]), ("x", .int .u8, enc .u8 7)] C01_example_body =
     some (.s (.int .u8), enc .u8 1, none, [("c", .bool, [true]), ("x", .int .u8, enc .u8 1)]) := by rfl
 
-example : bitStmts [("c", .bool, [false]), ("x", .int .u8, enc .u8 7)] C01_example_body =
+example : bitStmts (callAt ⟨[], []⟩ 0) [("c", .bool, [false]), ("x", .int .u8, enc .u8 7)] C01_example_body =
     some (.s (.int .u8), enc .u8 7, none, [("c", .bool, [false]), ("x", .int .u8, enc .u8 7)]) := by rfl
+
+/-- a call: `fn inc(a: u8) -> u8 { a + 1u8 }` and the body `inc(x)`; with `x = 255` the callee's overflow is the
+caller's panic, and inlining to depth 0 is outside the fragment -/
+def C01_example_prog : Prog :=
+  ⟨[⟨"inc", [("a", .int .u8)], .int .u8, .cons (.expr (.bin .add (.int .u8) (.var "a") (.int 1 .u8))) .nil⟩], []⟩
+
+example : bitBody C01_example_prog [("x", .int .u8, enc .u8 7)] (.cons (.expr (.call "inc" (.cons (.var "x") .nil))) .nil) =
+    some (.s (.int .u8), enc .u8 8, none, [("x", .int .u8, enc .u8 7)]) := by rfl
+
+example : bitBody C01_example_prog [("x", .int .u8, enc .u8 255)] (.cons (.expr (.call "inc" (.cons (.var "x") .nil))) .nil) =
+    some (.s (.int .u8), enc .u8 0, some .overflow, [("x", .int .u8, enc .u8 255)]) := by rfl
+
+example : bitStmts (callAt C01_example_prog 0) [("x", .int .u8, enc .u8 7)]
+    (.cons (.expr (.call "inc" (.cons (.var "x") .nil))) .nil) = none := by rfl
 
 example : EnvRel [("x", .int 7)] [("x", .int .u8, enc .u8 7)] :=
   EnvRel.cons ⟨by decide, rfl⟩ EnvRel.nil
